@@ -151,6 +151,10 @@ void __gcov_flush(void);
 #  undef MAX_CODE_LENGTH
 #  define MAX_CODE_LENGTH VERIF_MAX_CODE_LENGTH
 # endif
+# ifdef VERIF_MAX_SELECTORS
+#  undef MAX_SELECTORS
+#  define MAX_SELECTORS VERIF_MAX_SELECTORS
+# endif
 #endif
 #if !defined(KJN_LBZIP2_VERIF) || !defined(VERIF_POINT)
 # undef VERIF_POINT
